@@ -272,12 +272,22 @@ def observe(D, base, ids, xs, mode, pre, R, X, T, bogus, flag, rng, forms):
         rec.aliases = [rd, xd, td]
         try:
             if mode == 0:
-                ex = d.executor(target_nodes=t, exclude_nodes=x, root_nodes=r)
+                if r is None and x is None and t is not None and not bogus and rng.random() < 0.3:
+                    # the same selection given as cache_deps_of (with a cache file): the run executes what the named nodes
+                    # need, themselves included - debug nodes only when the flag is on
+                    import tempfile
+                    cache = os.path.join(tempfile.gettempdir(), f"e3-cache-{os.getpid()}.pkl")
+                    ex = d.executor(cache_deps_of=t, cache_in=cache)
+                else:
+                    cache = None
+                    ex = d.executor(target_nodes=t, exclude_nodes=x, root_nodes=r)
                 try:
                     g = mask(ids.index(i) + 1 for i in ex.graph.nodes if i in ids)
                 except Exception:  # noqa: BLE001
                     g = -1
                 out = ex()
+                if cache and os.path.exists(cache):
+                    os.remove(cache)
             elif mode == 1:
                 d.setup(target_nodes=t, exclude_nodes=x, root_nodes=r)
                 out = None
